@@ -153,7 +153,8 @@ def _cls(items: T.Any, flags: int) -> T.FrozenSet[str]:
         elif name == "CATEGORY":
             cat = str(av)
             if cat == "CATEGORY_DIGIT":
-                out |= DIGITS
+                # str patterns: \d also matches every non-ASCII decimal digit (OTHER stands for all non-ASCII characters) unless re.ASCII
+                out |= DIGITS if flags & re.ASCII else DIGITS | {OTHER}
             elif cat == "CATEGORY_NOT_DIGIT":
                 out |= SIGMA - DIGITS
             elif cat == "CATEGORY_SPACE":
